@@ -1,6 +1,7 @@
 """Harness registry: property id -> harness module."""
 
 REGISTRY = {
+    "C07": "harness.c07_rtp",
     "C10": "harness.c10_jitter",
     "C17": "harness.c17_serial",
 }
